@@ -8,10 +8,10 @@ property count.  Direct monitor of the property on the same kind of runs (harnes
 from .. import refine, runs
 
 MODULE = "PyhmsVerif.Props.C06"
-THEOREMS = []
-LEVEL = "exploration"
-LEVEL_TEXT = "Trace refinement against the Lean tree model plus the property's direct monitor on sampled real runs; theorems for this property not yet registered."
-LEVEL_NOTE = "Sampled runs only; model, tracer and monitors trusted."
+THEOREMS = ['C06.C06_absorbing', 'C06.C06_running_frame', 'C06.C06_only_active_runs', 'C06.C06_new_runs_next']
+LEVEL = 'proof'
+LEVEL_TEXT = 'Theorems for every later state of every accepted run (positional, independent of ids): an inactive deme is never reactivated and its history and counter never change; histories are append-only; only an active deme can run; generations never create demes or touch the metaepoch counter; demes created by a round are active, start at the current metaepoch and cannot run before the next step. Tie: trace refinement (schedule, generation counts, LSC/GSC/CMA-stop consequences are computed by the model and diffed) + direct monitor.'
+LEVEL_NOTE = 'Trusted: Lean kernel + standard axioms; the hand-written tree model (Tree.step) is tied to DemeTree.run by trace refinement on sampled runs (every run is re-executed by the model, dumps and sprout stages diffed); numerical engines (NumPy RNG, cma, scipy), objective values and user-defined stop-condition verdicts are environment; monitors trusted as failing-input search. The equivalence inactive <-> (LSC verdict or GSC verdict or engine self-stop) is computed by the model per engine and checked by refinement, not stated as a separate theorem; exactly-one-metaepoch-per-step is checked by refinement and monitor.'
 TECHNIQUE = "trace refinement against the Lean tree model (Tree.step re-executes real runs) + direct monitors"
 RULE = "case = one traced run of a random configuration (1-3 levels, engine per level from the full list, every shipped GSC/LSC kind plus user-defined ones, both stock sprout mechanisms and user-composed chains, hibernation on/off, both directions, decimal boxes, optional cutoff/precision/stats wrappers, shared or per-level problems); non-trivial = run with >= 2 demes and >= 2 metaepochs; distinct by configuration hash"
 ASSUMPTIONS = ["objective is deterministic and never returns NaN", "runs are capped at 12 metaepochs by a user-level composite stop condition"]
